@@ -756,6 +756,85 @@ def _probe_order(fns, fn, bind, depth=0):
     return out
 
 
+def rule_reflect(ctx, ts):
+    """get_class(get_model(cls)) is cls for every generated class: the generated package path strops each namespace component on its
+    own (`filter` -> `filter_`), so the lookup has to retry with the underscore per component, on top of the package it has resolved
+    so far.  One retry for the whole dotted path finds the class only when nothing but the last component is a reserved word."""
+    R = "R-C18-MODEL"
+    N = ts.nodes
+    cands = [x for x in ts.templates if x.rel.endswith("py/support/nunavut_support.j2")]
+    if not cands:
+        raise AnalysisError("anchor missing: py/support/nunavut_support.j2")
+    t = cands[0]
+    p = j2text.render_paths(N, t.ast.body, limit=64)[0]
+    try:
+        tree = ast.parse(p.text)
+    except SyntaxError as e:
+        raise AnalysisError(f"rendered nunavut_support does not parse: {e}")
+    mod_fns = {f.name: f for f in tree.body if isinstance(f, ast.FunctionDef)}
+    gc = mod_fns.get("get_class")
+    if gc is None:
+        raise AnalysisError("anchor missing: get_class in nunavut_support")
+    unit, todo = [], [gc]
+    while todo:
+        f = todo.pop()
+        if f in unit:
+            continue
+        unit.append(f)
+        for c in ast.walk(f):
+            if isinstance(c, ast.Call) and isinstance(c.func, ast.Name) and c.func.id in mod_fns and c.func.id.startswith("_") and len(unit) < 6:
+                todo.append(mod_fns[c.func.id])
+
+    def is_import(c):
+        return isinstance(c, ast.Call) and ast.unparse(c.func).endswith("import_module") and c.args
+
+    def underscored(e):
+        if isinstance(e, ast.BinOp) and isinstance(e.op, ast.Add) and isinstance(e.right, ast.Constant) and e.right.value == "_":
+            return e.left
+        if isinstance(e, ast.JoinedStr) and e.values and isinstance(e.values[-1], ast.Constant) and e.values[-1].value == "_" and len(e.values) == 2 \
+                and isinstance(e.values[0], ast.FormattedValue):
+            return e.values[0].value
+        return None
+
+    found = 0
+    for f in unit:
+        pm = pyfront.parent_map(f)
+        for tr in [n for n in ast.walk(f) if isinstance(n, ast.Try)]:
+            hs = [h for h in tr.handlers if h.type is not None and any(k in ast.unparse(h.type) for k in ("ImportError", "ModuleNotFoundError"))]
+            retry = [(h, c) for h in hs for c in ast.walk(h) if is_import(c) and underscored(c.args[0]) is not None]
+            if not retry:
+                continue
+            found += 1
+            first = [c for st in tr.body for c in ast.walk(st) if is_import(c)]
+            # the enclosing loop over the components
+            cur, loop = tr, None
+            while id(cur) in pm:
+                cur = pm[id(cur)]
+                if isinstance(cur, ast.For):
+                    loop = cur
+                    break
+                if isinstance(cur, (ast.FunctionDef, ast.Lambda)):
+                    break
+            ok, why = True, ""
+            if loop is None:
+                ok, why = False, "the underscore retry is not inside a loop over the namespace components: it is applied once, to the whole dotted path"
+            else:
+                lv = {n.id for n in ast.walk(loop.target) if isinstance(n, ast.Name)}
+                name_e = pyfront.subst_locals(f, first[0].args[0]) if first else None
+                base = underscored(retry[0][1].args[0])
+                same = first and (ast.unparse(base) == ast.unparse(first[0].args[0]))
+                uses_lv = name_e is not None and bool({n.id for n in ast.walk(name_e) if isinstance(n, ast.Name)} & lv)
+                onto_parent = name_e is not None and "__name__" in ast.unparse(name_e)
+                if not same:
+                    ok, why = False, f"the retry imports `{ast.unparse(retry[0][1].args[0])}`, not the name that just failed with the underscore appended"
+                elif not (uses_lv and onto_parent):
+                    ok, why = False, f"the name tried in the loop, `{ast.unparse(name_e)}`, is not <resolved parent package>.__name__ + '.' + <this component>"
+            ctx.ob(R, t.rel, f"{f.name}: a reserved namespace component is retried with the underscore per component, on top of the package resolved so far", ok,
+                   "" if ok else why + ": get_class(get_model(cls)) fails for classes below a stropped namespace that is not the last component", tr.lineno)
+    ctx.ob(R, t.rel, "get_class: the import of the generated package retries stropped component names", found > 0,
+           "" if found else "no `except ImportError: import_module(<name> + '_')` retry reachable from get_class: classes in stropped namespaces are not found", gc.lineno)
+
+
 def run(ctx):
     ctx.explanation = (
         "C18 is decided on the Python text embedded in py/templates/base.j2: each setter branch, the assign_array "
@@ -771,6 +850,7 @@ def run(ctx):
     px = pyfront.PyIndex(ctx.root)
     canonicalise(ts)
     rule_model(ctx, ts, px)
+    rule_reflect(ctx, ts)
     rule_validate(ctx, ts)
     rule_union(ctx, ts)
     rule_builtin(ctx, ts)
